@@ -69,12 +69,126 @@ Proof.
     inversion H; subst. simpl. f_equal. apply IH. reflexivity.
 Qed.
 
+(* ------------------------------------------------------------------ unfolding equations *)
+Lemma eval_args_cons : forall W V k e r st,
+  eval_args W V (XCons k e r) st
+  = let '(o, st1) := eval W V e st in
+    let '(os, st2) := eval_args W V r st1 in ((k, e, o) :: os, st2).
+Proof. reflexivity. Qed.
+
+Lemma eval_seq_cons : forall W V k e r st,
+  eval_seq W V (XCons k e r) st
+  = let '(o, st1) := eval W V e st in
+    if is_ok (fst o) then let '(os, st2) := eval_seq W V r st1 in ((k, e, o) :: os, st2)
+    else ([(k, e, o)], st1).
+Proof. reflexivity. Qed.
+
+Lemma eval_cond_cons2 : forall W V k c k2 t rest st,
+  eval_cond W V (XCons k c (XCons k2 t rest)) st
+  = let '((rc, uc), st1) := eval W V c st in
+    match rc with
+    | Raise err => ((Raise err, uc), st1)
+    | Ok vc =>
+        if w_truthy W vc then
+          let '((rt, ut), st2) := eval W V t st1 in ((rt, uc ++ ut), st2)
+        else
+          match rest with
+          | XNil => ((Raise (w_index_error W), uc), st1)
+          | XCons _ e' XNil => let '((re, ue), st2) := eval W V e' st1 in ((re, uc ++ ue), st2)
+          | XCons _ _ (XCons _ _ _) =>
+              let '((rr, ur), st2) := eval_cond W V rest st1 in ((rr, uc ++ ur), st2)
+          end
+    end.
+Proof. reflexivity. Qed.
+
+Lemma eval_cond_short : forall W V es st,
+  (es = XNil \/ exists k c, es = XCons k c XNil) ->
+  eval_cond W V es st = ((Raise (w_index_error W), []), st).
+Proof. intros W V es st [H|(k & c & H)]; subst; reflexivity. Qed.
+
+Lemma sems_cons : forall W k e r, sems W (XCons k e r) = (k, sem W e) :: sems W r.
+Proof. reflexivity. Qed.
+
+Lemma prods_cons : forall W k e r, prods W (XCons k e r) = prod W e ++ prods W r.
+Proof. reflexivity. Qed.
+
+Lemma sem_cond_cons2 : forall W k c k2 t rest,
+  sem_cond W (XCons k c (XCons k2 t rest))
+  = match sem W c with
+    | Raise err => Raise err
+    | Ok vc =>
+        if w_truthy W vc then sem W t
+        else match rest with
+             | XNil => Raise (w_index_error W)
+             | XCons _ e' XNil => sem W e'
+             | XCons _ _ (XCons _ _ _) => sem_cond W rest
+             end
+    end.
+Proof. reflexivity. Qed.
+
+Lemma prod_cond_cons2 : forall W k c k2 t rest,
+  prod_cond W (XCons k c (XCons k2 t rest))
+  = match sem W c with
+    | Raise _ => []
+    | Ok vc =>
+        if w_truthy W vc then prod W t
+        else match rest with
+             | XNil => []
+             | XCons _ e' XNil => prod W e'
+             | XCons _ _ (XCons _ _ _) => prod_cond W rest
+             end
+    end.
+Proof. reflexivity. Qed.
+
+Lemma sem_EConst : forall W v, sem W (EConst v) = Ok v. Proof. reflexivity. Qed.
+Lemma prod_EConst : forall W v, prod W (EConst v) = []. Proof. reflexivity. Qed.
+Lemma sem_ECont : forall W items, sem W (ECont items)
+  = match collect (sems W items) with inl vs => Ok (mk_container vs) | inr err => Raise err end.
+Proof. reflexivity. Qed.
+Lemma prod_ECont : forall W items, prod W (ECont items) = prods W items. Proof. reflexivity. Qed.
+Lemma sem_ETask : forall W t args, sem W (ETask t args)
+  = match collect (sems W args) with inl vs => call_res W t vs | inr err => Raise err end.
+Proof. reflexivity. Qed.
+Lemma prod_ETask : forall W t args, prod W (ETask t args)
+  = match collect (sems W args) with inl vs => [call_key W t vs] | inr _ => [] end.
+Proof. reflexivity. Qed.
+Lemma sem_ESimple : forall W o args, sem W (ESimple o args)
+  = match collect (sems W args) with inl vs => w_op W o (map snd vs) | inr err => Raise err end.
+Proof. reflexivity. Qed.
+Lemma prod_ESimple : forall W o args, prod W (ESimple o args) = prods W args. Proof. reflexivity. Qed.
+Lemma sem_ECond : forall W args, sem W (ECond args) = sem_cond W args. Proof. reflexivity. Qed.
+Lemma prod_ECond : forall W args, prod W (ECond args) = prod_cond W args. Proof. reflexivity. Qed.
+Lemma sem_ESeq : forall W items, sem W (ESeq items)
+  = match collect (sems W items) with inl vs => Ok (mk_list vs) | inr err => Raise err end.
+Proof. reflexivity. Qed.
+Lemma prod_ESeq : forall W items, prod W (ESeq items) = prods W items. Proof. reflexivity. Qed.
+Lemma sem_ECatch : forall W e0 cls r, sem W (ECatch e0 cls r)
+  = match sem W e0 with
+    | Ok v => Ok v
+    | Raise err => if w_matches W cls err then call_res W r [(None, err)] else Raise err
+    end.
+Proof. reflexivity. Qed.
+Lemma prod_ECatch : forall W e0 cls r, prod W (ECatch e0 cls r)
+  = match sem W e0 with
+    | Ok _ => prod W e0
+    | Raise err => if w_matches W cls err then [call_key W r [(None, err)]] else []
+    end.
+Proof. reflexivity. Qed.
+
+#[global] Hint Rewrite sem_EConst prod_EConst sem_ECont prod_ECont sem_ETask prod_ETask sem_ESimple prod_ESimple
+  sem_ECond prod_ECond sem_ESeq prod_ESeq sem_ECatch prod_ECatch : dfeq.
+
+Ltac split3 := split; [|split].
+Ltac split4 := split; [|split; [|split]].
+
 (* ------------------------------------------------------------------ the invariant *)
 Section Inv.
   Variable W : world.
 
   Definition res_ok (e : expr) (o : outcome) : Prop :=
     fst o = sem W e /\ (is_ok (fst o) = true -> incl (prod W e) (snd o)).
+
+  Ltac sp := unfold res_ok; autorewrite with dfeq; simpl fst; simpl snd.
 
   Definition entry_ok (p : expr * outcome) : Prop := res_ok (fst p) (snd p).
 
@@ -286,20 +400,24 @@ Section Inv.
     /\ (forall vs, collect (sems W es) = inl vs -> incl (prods W es) (all_ups os)).
   Proof.
     induction es as [|k e r IH]; intros HE st os st' HI HV.
-    - simpl in HV. inversion HV; subst. simpl. split4; [exact HI|reflexivity|constructor|]. intros vs _ x [].
-    - destruct HE as [Pe Er]. simpl in HV.
+    - change (eval_args W fixed XNil st) with (@nil out, st) in HV. inversion HV; subst.
+      split4; [exact HI|reflexivity|constructor|]. intros vs _ x [].
+    - destruct HE as [Pe Er]. rewrite eval_args_cons in HV.
       destruct (eval W fixed e st) as [o st1] eqn:E1.
       destruct (eval_args W fixed r st1) as [os' st2] eqn:E2.
       inversion HV; subst. clear HV.
       destruct (Pe st o st1 HI E1) as [HI1 [A B]].
       destruct (IH Er st1 os' st' HI1 E2) as (HI2 & HM & HF & HP).
+      rewrite sems_cons, prods_cons.
       split4; [exact HI2| | |].
-      + simpl. unfold labres at 1, out_label, out_res. simpl. rewrite A, HM. reflexivity.
-      + constructor; auto. unfold out_ok, out_expr. simpl. split; assumption.
+      + change (map labres ((k, e, o) :: os')) with ((k, fst o) :: map labres os').
+        rewrite A, HM. reflexivity.
+      + constructor; [|exact HF]. unfold out_ok, out_expr. simpl. split; assumption.
       + intros vs HC. simpl in HC. destruct (sem W e) as [v|err] eqn:ES; [|discriminate].
         destruct (collect (sems W r)) as [vs'|err] eqn:EC; [|discriminate].
-        simpl. unfold all_ups. simpl. apply incl_app.
-        * apply incl_appl. unfold out_ups. simpl. apply B. rewrite A. reflexivity.
+        change (all_ups ((k, e, o) :: os')) with (snd o ++ all_ups os').
+        apply incl_app.
+        * apply incl_appl. apply B. rewrite A. reflexivity.
         * apply incl_appr. exact (HP vs' eq_refl).
   Qed.
 
@@ -309,25 +427,28 @@ Section Inv.
     /\ (forall vs, collect (sems W es) = inl vs -> incl (prods W es) (all_ups os)).
   Proof.
     induction es as [|k e r IH]; intros HE st os st' HI HV.
-    - simpl in HV. inversion HV; subst. simpl. split3; [exact HI|reflexivity|]. intros vs _ x [].
-    - destruct HE as [Pe Er]. simpl in HV.
+    - change (eval_seq W fixed XNil st) with (@nil out, st) in HV. inversion HV; subst.
+      split3; [exact HI|reflexivity|]. intros vs _ x [].
+    - destruct HE as [Pe Er]. rewrite eval_seq_cons in HV.
       destruct (eval W fixed e st) as [o st1] eqn:E1.
       destruct (Pe st o st1 HI E1) as [HI1 [A B]].
+      rewrite sems_cons, prods_cons.
       destruct (is_ok (fst o)) eqn:EO.
       + destruct (eval_seq W fixed r st1) as [os' st2] eqn:E2.
         inversion HV; subst. clear HV.
         destruct (IH Er st1 os' st' HI1 E2) as (HI2 & HM & HP).
         split3; [exact HI2| |].
-        * simpl. unfold labres at 1, out_label, out_res. simpl. rewrite A.
-          destruct (sem W e); [|reflexivity]. rewrite HM. reflexivity.
+        * change (map labres ((k, e, o) :: os')) with ((k, fst o) :: map labres os').
+          rewrite A. simpl. destruct (sem W e); [|reflexivity]. rewrite HM. reflexivity.
         * intros vs HC. simpl in HC. destruct (sem W e) as [v|err] eqn:ES; [|discriminate].
           destruct (collect (sems W r)) as [vs'|err] eqn:EC; [|discriminate].
-          simpl. unfold all_ups. simpl. apply incl_app.
-          -- apply incl_appl. unfold out_ups. simpl. apply B. reflexivity.
+          change (all_ups ((k, e, o) :: os')) with (snd o ++ all_ups os').
+          apply incl_app.
+          -- apply incl_appl. apply B. reflexivity.
           -- apply incl_appr. exact (HP vs' eq_refl).
       + inversion HV; subst. clear HV. split3; [exact HI1| |].
-        * simpl. unfold labres, out_label, out_res. simpl. rewrite A.
-          rewrite A in EO. destruct (sem W e); [discriminate|reflexivity].
+        * change (map labres [(k, e, o)]) with [(k, fst o)].
+          rewrite A. rewrite A in EO. simpl. destruct (sem W e); [discriminate|reflexivity].
         * intros vs HC. simpl in HC. rewrite A in EO. destruct (sem W e); [discriminate|discriminate].
   Qed.
 
@@ -338,32 +459,35 @@ Section Inv.
     inv st' /\ fst o = sem_cond W es /\ (is_ok (fst o) = true -> incl (prod_cond W es) (snd o)).
   Proof.
     induction n as [|n IH]; intros es HL HE st o st' HI HV.
-    - destruct es; [|simpl in HL; lia]. simpl in HV. inversion HV; subst. simpl.
+    - destruct es; [|simpl in HL; lia]. rewrite eval_cond_short in HV by auto. inversion HV; subst.
       split3; [exact HI|reflexivity|discriminate].
     - destruct es as [|k c [|k2 t rest]].
-      + simpl in HV. inversion HV; subst. simpl. split3; [exact HI|reflexivity|discriminate].
-      + simpl in HV. inversion HV; subst. simpl. split3; [exact HI|reflexivity|discriminate].
-      + destruct HE as [Pc [Pt Er]]. simpl in HV.
+      + rewrite eval_cond_short in HV by auto. inversion HV; subst.
+        split3; [exact HI|reflexivity|discriminate].
+      + rewrite eval_cond_short in HV by eauto. inversion HV; subst.
+        split3; [exact HI|reflexivity|discriminate].
+      + destruct HE as [Pc [Pt Er]]. rewrite eval_cond_cons2 in HV.
         destruct (eval W fixed c st) as [[rc uc] st1] eqn:E1.
         destruct (Pc st _ st1 HI E1) as [HI1 [A B]]. simpl in A, B.
-        simpl sem_cond. simpl prod_cond. rewrite <- A.
+        rewrite sem_cond_cons2, prod_cond_cons2. rewrite <- A.
         destruct rc as [vc|err].
         * destruct (w_truthy W vc) eqn:ET.
           -- destruct (eval W fixed t st1) as [[rt ut] st2] eqn:E2. inversion HV; subst. clear HV.
-             destruct (Pt st1 _ st' HI1 E2) as [HI2 [C D]]. simpl in C, D. simpl.
-             repeat split; auto. intros H. apply incl_appr. auto.
+             destruct (Pt st1 _ st' HI1 E2) as [HI2 [C D]]. simpl in C, D. simpl fst. simpl snd.
+             split3; [exact HI2|exact C|]. intros H. apply incl_appr. auto.
           -- destruct rest as [|k3 e' [|k4 e4 rest']].
-             ++ inversion HV; subst. simpl. repeat split; auto. discriminate.
+             ++ inversion HV; subst. split3; [exact HI1|reflexivity|discriminate].
              ++ destruct Er as [Pe' _].
                 destruct (eval W fixed e' st1) as [[re ue] st2] eqn:E2. inversion HV; subst. clear HV.
-                destruct (Pe' st1 _ st' HI1 E2) as [HI2 [C D]]. simpl in C, D. simpl.
-                repeat split; auto. intros H. apply incl_appr. auto.
+                destruct (Pe' st1 _ st' HI1 E2) as [HI2 [C D]]. simpl in C, D. simpl fst. simpl snd.
+                split3; [exact HI2|exact C|]. intros H. apply incl_appr. auto.
              ++ destruct (eval_cond W fixed (XCons k3 e' (XCons k4 e4 rest')) st1) as [[rr ur] st2] eqn:E2.
                 inversion HV; subst. clear HV.
-                destruct (IH (XCons k3 e' (XCons k4 e4 rest')) ltac:(simpl in *; lia) Er st1 _ st' HI1 E2)
-                  as (HI2 & C & D). simpl fst in C, D. simpl snd in D.
-                repeat split; auto. simpl. intros H. apply incl_appr. auto.
-        * inversion HV; subst. simpl. repeat split; auto. discriminate.
+                assert (HL' : xlen (XCons k3 e' (XCons k4 e4 rest')) <= n) by (simpl in *; lia).
+                destruct (IH (XCons k3 e' (XCons k4 e4 rest')) HL' Er st1 _ st' HI1 E2)
+                  as (HI2 & C & D). simpl fst in C, D. simpl snd in D. simpl fst. simpl snd.
+                split3; [exact HI2|exact C|]. intros H. apply incl_appr. auto.
+        * inversion HV; subst. split3; [exact HI1|reflexivity|discriminate].
   Qed.
 
   (* -------------------------------------------------------------- the main induction *)
@@ -375,12 +499,17 @@ Section Inv.
   Lemma eval_P : (forall e, P e) /\ (forall es, elems es).
   Proof.
     apply expr_exprs_ind.
-    - (* EConst *) intros v st o st' HI HV. simpl in HV. inversion HV; subst.
-      split; [exact HI|]. unfold res_ok. simpl. split; [reflexivity|]. intros _ x [].
-    - (* ECont *) intros items HE st o st' HI HV. simpl in HV.
+    - (* EConst *) intros v st o st' HI HV.
+      change (eval W fixed (EConst v) st) with ((Ok v, @nil ckey), st) in HV. inversion HV; subst.
+      split; [exact HI|]. sp. split; [reflexivity|]. intros _ x [].
+    - (* ECont *) intros items HE st o st' HI HV.
+      change (eval W fixed (ECont items) st) with
+        (let '(os, st1) := eval_args W fixed items st in
+         ((match collect (map labres os) with inl vs => Ok (mk_container vs) | inr err => Raise err end,
+           all_ups os), st1)) in HV.
       destruct (eval_args W fixed items st) as [os st1] eqn:E1. inversion HV; subst. clear HV.
       destruct (args_ok items HE st os st' HI E1) as (HI1 & HM & HF & HP).
-      split; [exact HI1|]. unfold res_ok. simpl. rewrite HM. split; [reflexivity|].
+      split; [exact HI1|]. sp. rewrite HM. split; [reflexivity|].
       destruct (collect (sems W items)) as [vs|err] eqn:EC; [|discriminate]. intros _. exact (HP vs eq_refl).
     - (* ETask *) intros t args HE st o st' HI HV.
       change (eval W fixed (ETask t args) st) with
@@ -404,11 +533,11 @@ Section Inv.
           inversion HV; subst. clear HV.
           destruct (exec_call_ok t os vs st1 o st2 HI1 EC HF E2) as [HI2 Ho].
           assert (R : res_ok (ETask t args) o).
-          { subst o. unfold res_ok. simpl. rewrite <- HM, EC. split; [reflexivity|]. intros _. apply incl_refl. }
+          { subst o. sp. rewrite <- HM, EC. split; [reflexivity|]. intros _. apply incl_refl. }
           split; [|exact R]. apply inv_register; assumption.
         * inversion HV; subst. clear HV.
           assert (R : res_ok (ETask t args) (Raise err, [])).
-          { unfold res_ok. simpl. rewrite <- HM, EC. split; [reflexivity|]. discriminate. }
+          { sp. rewrite <- HM, EC. split; [reflexivity|]. discriminate. }
           split; [|exact R]. apply inv_register; assumption.
     - (* ESimple *) intros op args HE st o st' HI HV.
       change (eval W fixed (ESimple op args) st) with
@@ -428,7 +557,7 @@ Section Inv.
         destruct (args_ok args HE st os st1 HI E1) as (HI1 & HM & HF & HP).
         inversion HV; subst. clear HV.
         match goal with |- _ /\ res_ok _ ?oo => assert (R : res_ok (ESimple op args) oo) end.
-        { unfold res_ok. simpl. rewrite HM. split; [reflexivity|].
+        { sp. rewrite HM. split; [reflexivity|].
           destruct (collect (sems W args)) as [vs|err] eqn:EC; [|discriminate]. intros _. exact (HP vs eq_refl). }
         split; [|exact R]. apply inv_register; assumption.
     - (* ECond *) intros args HE st o st' HI HV.
@@ -458,7 +587,7 @@ Section Inv.
       + destruct (eval_seq W fixed items st) as [os st1] eqn:E1. inversion HV; subst. clear HV.
         destruct (seq_ok items HE st os st1 HI E1) as (HI1 & HM & HP).
         match goal with |- _ /\ res_ok _ ?oo => assert (R : res_ok (ESeq items) oo) end.
-        { unfold res_ok. simpl. rewrite HM. split; [reflexivity|].
+        { sp. rewrite HM. split; [reflexivity|].
           destruct (collect (sems W items)) as [vs|err] eqn:EC; [|discriminate]. intros _. exact (HP vs eq_refl). }
         split; [|exact R]. apply inv_register; assumption.
     - (* ECatch *) intros e0 Pe0 cls r st o st' HI HV.
@@ -512,49 +641,49 @@ Section Inv.
           split.
           - destruct (is_ok (fst o1)) eqn:EO; [|exact H2].
             apply inv_add_cache; [exact H2|]. unfold centry_ok. simpl. rewrite <- A. auto.
-          - unfold res_ok. simpl. rewrite HS, HMt. split; assumption. }
+          - sp. rewrite HS, HMt. split; assumption. }
         destruct (lookup (ECatch e0 cls r) (s_cache st)) as [[|cerr]|] eqn:EC.
         * (* replay of the cached main expression *)
           destruct (eval W fixed e0 st) as [[re ue] st1] eqn:E1.
-          destruct (Pe0 st _ st1 HI E1) as [HI1 [A B]]. simpl in A, B. simpl v_derive_cached in HV. cbv iota in HV.
+          destruct (Pe0 st _ st1 HI E1) as [HI1 [A B]]. simpl in A, B. simpl v_derive_cached in HV. cbv iota zeta in HV.
           destruct re as [v|err].
-          -- eapply TAIL; [exact HI1| |exact HV]. unfold res_ok. simpl. rewrite <- A. split; [reflexivity|]. exact B.
+          -- eapply TAIL; [exact HI1| |exact HV]. sp. rewrite <- A. split; [reflexivity|]. exact B.
           -- destruct (w_matches W cls err) eqn:EM.
              ++ destruct (eval_recover W r err ue st1) as [o1 st2] eqn:ER.
                 destruct (REC err ue st1 o1 st2 HI1 (eq_sym A) EM ER) as [H2 R2].
                 eapply TAIL; [exact H2|exact R2|exact HV].
-             ++ eapply TAIL; [exact HI1| |exact HV]. unfold res_ok. simpl. rewrite <- A, EM. split; [reflexivity|discriminate].
+             ++ eapply TAIL; [exact HI1| |exact HV]. sp. rewrite <- A, EM. split; [reflexivity|discriminate].
         * (* replay of the cached recover expression *)
           pose proof (cache_lookup st _ _ HI EC) as CK. unfold centry_ok in CK. simpl in CK.
           destruct CK as (HS & HMt & HOK).
           destruct (eval_recover W r cerr [] st) as [o1 st1] eqn:ER.
           destruct (recover_ok r cerr [] st o1 st1 HI ER) as [H2 [A B]].
           rewrite sem_recover in A. rewrite prod_recover in B.
-          simpl v_derive_cached in HV. cbv iota in HV.
+          simpl v_derive_cached in HV. cbv iota zeta in HV.
           eapply TAIL; [exact H2| |exact HV].
-          unfold res_ok. simpl. rewrite HS, HMt. split; assumption.
+          sp. rewrite HS, HMt. split; assumption.
         * (* not cached *)
           destruct (eval W fixed e0 st) as [[re ue] st1] eqn:E1.
           destruct (Pe0 st _ st1 HI E1) as [HI1 [A B]]. simpl in A, B.
           destruct re as [v|err].
           -- eapply TAIL; [| |exact HV].
              ++ apply inv_add_cache; [exact HI1|]. unfold centry_ok. simpl. rewrite <- A. reflexivity.
-             ++ unfold res_ok. simpl. rewrite <- A. split; [reflexivity|]. exact B.
+             ++ sp. rewrite <- A. split; [reflexivity|]. exact B.
           -- destruct (w_matches W cls err) eqn:EM.
              ++ destruct (eval_recover W r err ue st1) as [o1 st2] eqn:ER.
                 destruct (REC err ue st1 o1 st2 HI1 (eq_sym A) EM ER) as [H2 R2].
                 eapply TAIL; [exact H2|exact R2|exact HV].
-             ++ eapply TAIL; [exact HI1| |exact HV]. unfold res_ok. simpl. rewrite <- A, EM. split; [reflexivity|discriminate].
+             ++ eapply TAIL; [exact HI1| |exact HV]. sp. rewrite <- A, EM. split; [reflexivity|discriminate].
     - (* XNil *) exact I.
     - (* XCons *) intros k e Pe r Er. simpl. auto.
   Qed.
 
   Lemma inv_empty : inv empty_state.
-  Proof. unfold inv, empty_state, rows_complete. simpl. repeat split; auto. intros c []. Qed.
+  Proof. unfold inv, empty_state, rows_complete. simpl. split3; [constructor|constructor|intros c []]. Qed.
 
   Lemma inv_fresh_pend : forall st, inv st ->
     inv {| s_pend := []; s_cache := s_cache st; s_calls := s_calls st |}.
-  Proof. intros st (A & B & C). unfold inv. simpl. repeat split; auto. Qed.
+  Proof. intros st (A & B & C). unfold inv. simpl. exact (conj (Forall_nil _) (conj B C)). Qed.
 
   Lemma run_prog_inv : forall e st, inv st -> inv (snd (run_prog W fixed e st)) /\ fst (fst (run_prog W fixed e st)) = sem W e.
   Proof.
